@@ -133,7 +133,7 @@ def work(shard):
     return out
 
 
-RULE = ("alphabet of 7 named games (3 solvable incl. the paper's figure 5.5 and a 42-state board game, 2 unsolvable when pruned, 2 malformed: "
+RULE = ("alphabet of 8 named games (4 solvable incl. the paper's figure 5.5, a 42-state board game and a game with a Player-1 state whose moves are all dead, 2 unsolvable when pruned, 2 malformed: "
         "negative reward / None transition list; the names 'x' and 'x_no_prune' collide on purpose); every ordered selection of 0..k distinct "
         "games is one batch history, run through run_games (and in thorough also through main -f FILE -s and the report); every entry must "
         "equal the solo solve of that game computed in a forked fresh process; non-trivial = a selection of >= 2 games containing a failing one")
